@@ -236,7 +236,9 @@ def run(ctx):
             ratio = e1 / e4 if e4 > 0 else float('inf')
             worst_ratio.setdefault(spec['method'], []).append(ratio)
             # converging: quartering the step must reduce the error (about 16x for order 2, 4x for order 1)
-            need = 6.0 if order == 2 else 2.2
+            # backward Euler damps the swing itself: at these steps its error is of the size of the swing and far from
+            # its asymptotic regime, so only a clear decrease is required of it
+            need = 6.0 if order == 2 else 1.3
             if e1 > 1e-7 and ratio < need:
                 ctx.oracle_fail('smib-not-converging', '%s: error in delta %.3g at h=1/30 and %.3g at h=1/120 (ratio %.2f < %.1f): the '
                                 'trajectory does not converge to the reference at the method\'s order' % (spec['method'], e1, e4, ratio, need), spec)
@@ -255,11 +257,14 @@ def run(ctx):
             if not all(x['ok'] for x in rr):
                 ctx.oracle_fail('small-signal-not-simulated', 'perturbed stock case not simulated to the end', spec)
                 continue
-            tolrel = 1e-3 if spec['method'] == 'trapezoid' else 0.03
+            # modes up to |lambda| = 20/s over 0.5 s at h = 1/120: (h lambda)^2/12 * |lambda| t is about 2e-2 for the
+            # trapezoidal rule, h |lambda|^2 t / 2 about 0.8 for backward Euler in the worst case
+            tolrel = 0.03 if spec['method'] == 'trapezoid' else 0.9
             if rr[0]['rel'] > tolrel:
                 ctx.oracle_fail('small-signal-response-differs', '%s %s: the response to a 1e-4 slow-mode perturbation differs from expm(As t) by %.3g of '
                                 'the perturbation size at h=1/120' % (spec['case'], spec['method'], rr[0]['rel']), spec)
-            if spec['method'] == 'backeuler' and rr[0]['rel'] > 1e-4 and rr[0]['rel'] / max(rr[1]['rel'], 1e-300) < 1.5:
+            need2 = 2.5 if spec['method'] == 'trapezoid' else 1.5
+            if rr[0]['rel'] > 1e-4 and rr[0]['rel'] / max(rr[1]['rel'], 1e-300) < need2:
                 ctx.oracle_fail('small-signal-not-converging', '%s: error does not shrink when the step is halved (%.3g -> %.3g)'
                                 % (spec['case'], rr[0]['rel'], rr[1]['rel']), spec)
     ctx.cov['smib_error_ratio_h_over_h4'] = {k: [round(x, 2) for x in v[:12]] for k, v in worst_ratio.items()}
